@@ -1,5 +1,6 @@
 import GrVerif.Proofs.Borrow
 import GrVerif.Props.C13
+import GrVerif.Props.C13Eq
 /-!
 # C10 — face options change resource behaviour, never results   (partial)
 
@@ -9,8 +10,9 @@ The two option bits that change how data is obtained are modelled:
   `preload_fails_iff_some_glyph_unreadable` – the preloading constructor gives up exactly when some glyph cannot be read
   (on such an ill-formed font the lazy face still loads and substitutes glyph 0: the two option values then differ, which
   is why C10 is stated for well-formed fonts);
-* `gr_face_cacheCmap`: the cached and the direct cmap lookup are modelled in `Model/Cmap.lean`; that they agree on every code
-  point is decided by exhaustive correspondence per table (C13), the in-bounds part is a theorem there.
+* `gr_face_cacheCmap`: the cached and the direct cmap lookup are modelled in `Model/Cmap.lean`; `cmap_option_does_not_change_glyphs` –
+  on a font whose cmap ranges are sorted and disjoint (a well-formed font) both give the same glyph for every code point (C13's
+  `cached_lookup_is_direct_lookup`), and neither reads outside the table on any font.
 
 "Same glyph count, features, languages, character support and identical segments for all option values and both table
 sources" as a whole is decided on the implementation (`tools/props/c10.py`).
@@ -50,5 +52,13 @@ theorem preload_fails_iff_some_glyph_unreadable {G : Type} (load : Nat → Optio
 
 example : preload (fun g => if g = 2 then none else some g) 4 = none := by decide
 example : (preload (fun g => some g) 3).map (·.cache) = some [some 0, some 1, some 2] := by decide
+
+/-- `gr_face_cacheCmap` changes how a code point is looked up, never the glyph: on a cmap with sorted, disjoint ranges the face made with the
+option (cache built at creation) and the face made without it (table searched on every request) map every Unicode code point to the
+same glyph -/
+theorem cmap_option_does_not_change_glyphs (t : Buf) (h4 : 4 ≤ t.size) (bmp : Nat) (smp : Option Nat)
+    (hb : Cmap.bmpSubtable t = .ok (some bmp)) (hs : Cmap.smpSubtable t = .ok smp) (hS : Cmap.sortedCmapB t bmp smp = true) :
+    ∃ m, Cmap.buildCached t = .ok m ∧ ∀ usv, usv ≤ 0x10FFFF → Cmap.directGet t (some bmp) smp usv = .ok (Cmap.cachedGet m usv) :=
+  GrVerif.Props.C13.cached_cmap_is_built_and_agrees t h4 bmp smp hb hs hS
 
 end GrVerif.Props.C10
